@@ -58,3 +58,24 @@ func forEachPerm(n int, f func([]int)) {
 }
 
 func cloneInts(s []int) []int { return append([]int(nil), s...) }
+
+// systematicNames: every string of 1..4 symbols over {' " $ a LF blank}: all ways of placing quote characters,
+// the reserved prefix and a line break in a column name (1554 names).
+func systematicNames() []string {
+	alpha := []string{"'", `"`, "$", "a", "\n", " "}
+	var out []string
+	var rec func(cur string, n int)
+	rec = func(cur string, n int) {
+		if cur != "" {
+			out = append(out, cur)
+		}
+		if n == 0 {
+			return
+		}
+		for _, a := range alpha {
+			rec(cur+a, n-1)
+		}
+	}
+	rec("", 4)
+	return out
+}
